@@ -953,7 +953,10 @@ def cache(fun):
 
     @wraps(fun)
     def newfun(_self: "TensorDictBase", *args, **kwargs):
-        if not _self.is_locked or is_compiling():
+        # A lazy stack over already-locked members (``_is_locked is None``) merely *reports*
+        # ``is_locked``: it is not part of the lock graph of its members, so nothing would ever
+        # invalidate what it memoises when a member is unlocked, modified and locked again.
+        if not _self.is_locked or _self._is_locked is None or is_compiling():
             return fun(_self, *args, **kwargs)
         cache = _self._cache
         if cache is None:
